@@ -673,8 +673,20 @@ class Gen:
                 s.globals.append(g)
                 s.wild = ('target', g)
                 # XSD 1.1: the wildcard may stand anywhere, also BEFORE element particles it overlaps with
-                ps.insert(r.randint(0, len(ps)), ('PA', None if r.random() < 0.5 else [NS], (0, 2),
-                                                  r.choice(['lax', 'lax', 'strict', 'skip'])))
+                nss = lambda: r.choice([None, None, [NS], [NS, ONS], [ONS, NS]])
+                pcs = lambda: r.choice(['lax', 'lax', 'strict', 'skip'])
+                if r.random() < 0.5:
+                    # SEVERAL wildcards accepting the same names, different processContents, in every
+                    # order, mixed with the declarations (the earlier ones with a fixed occurrence:
+                    # Unique Particle Attribution); the FIRST matching particle decides the typing
+                    i = r.randint(0, len(ps))
+                    ps.insert(i, ('PA', nss(), r.choice([(1, 1), (1, 1), (2, 2)]), pcs()))
+                    if r.random() < 0.4:
+                        i = r.randint(i + 1, len(ps))
+                        ps.insert(i, ('PA', nss(), (1, 1), pcs()))
+                    ps.insert(r.randint(i + 1, len(ps)), ('PA', nss(), (0, 2), pcs()))
+                else:
+                    ps.insert(r.randint(0, len(ps)), ('PA', nss(), (0, 2), pcs()))
             else:
                 s.wild = ('other', None)
                 ps.append(('PA', ['##other'], (0, None), r.choice(['lax', 'lax', 'skip'])))
@@ -737,12 +749,22 @@ class InstGen:
                         kids.append(self.elem(e, depth + 1))
                     else:  # wildcard
                         kind, g = self.sch.wild
-                        pc = p[3] if len(p) > 3 else 'lax'
-                        if kind == 'target' and (r.random() < 0.7 or p[1] == [NS] or pc == 'strict'):
+                        # apply_schema attributes a name to the FIRST particle of the content model that
+                        # accepts it (whatever the position of the element): its processContents decides
+                        def first_pc(ns_):
+                            for q in self.sch.all_particles(ct):
+                                if q[0] == 'PA' and (q[1] is None or ns_ in q[1] or (ns_ == ONS and q[1] == ['##other'])):
+                                    return q[3] if len(q) > 3 else 'lax'
+                            return None
+                        here_other = p[1] is None or ONS in (p[1] or []) or p[1] == ['##other']
+                        other_ok = here_other and (p[3] if len(p) > 3 else 'lax') != 'strict' and first_pc(ONS) != 'strict'
+                        pc = first_pc(NS) or 'lax'
+                        if kind == 'target' and (r.random() < 0.7 or not other_ok):
                             node = self.elem(g, depth + 1)
                             if pc == 'skip':
                                 node['ty'] = None         # not assessed: expected xs:untyped
-                                if r.random() < 0.5 and not any(not isinstance(k, str) for k in node['kids']):
+                                if (p[3] if len(p) > 3 else 'lax') == 'skip' and r.random() < 0.5 and \
+                                        not any(not isinstance(k, str) for k in node['kids']):
                                     node['kids'] = ['not even valid']
                             kids.append(node)
                         else:
